@@ -1444,7 +1444,16 @@ class DiameterMessage:
 
         while index < len(stream):
             header_stream = stream[index:index+DIAMETER_HEADER_LENGTH]
+            if len(header_stream) != DIAMETER_HEADER_LENGTH:
+                raise DiameterMessageError("invalid bytes stream. It does "\
+                                           "not contain a complete Diameter "\
+                                           "Header")
+
             header = DiameterHeader.load(header_stream)
+            if header.get_length() < DIAMETER_HEADER_LENGTH:
+                raise DiameterMessageError("invalid bytes stream. The "\
+                                           "Message Length field is shorter "\
+                                           "than the Diameter Header")
 
             lower_limit = index + DIAMETER_HEADER_LENGTH
             upper_limit = index + header.get_length()
